@@ -2368,13 +2368,20 @@ class Statements(Sequence, Immutable):
         if i == 0 or i not in g:
             # Special case for models with only one statement or no dependent statements
             return symbs
-        for j, _ in nx.bfs_predecessors(g, i, sort_neighbors=lambda x: reversed(sorted(x))):
+        # NOTE: Walk backwards in statement order. The graph has edges to every earlier
+        # definition of a symbol, only the ones defining a still needed symbol count.
+        for j in sorted(nx.descendants(g, i), reverse=True):
             statement = self[j]
             if isinstance(statement, Assignment):
+                if statement.symbol not in symbs:
+                    continue
                 symbs -= {statement.symbol}
             else:
                 assert isinstance(statement, CompartmentalSystem)
-                symbs -= set(statement.amounts)
+                amounts = set(statement.amounts)
+                if symbs.isdisjoint(amounts):
+                    continue
+                symbs -= amounts
             symbs |= statement.rhs_symbols
         return symbs
 
